@@ -180,7 +180,7 @@ Section Rewrite.
     assert (Hm1 : forall x, has w x -> has w1 x).
     { intros x Hx. unfold has in *. cbn [w_pos w1]. rewrite pos_get_cons. destruct (sid_eq id x); [discriminate|auto]. }
     inversion Hwr; subst w'; clear Hwr.
-    destruct (bsz <? w_len w1).
+    destruct (bsz <? w_len w + doc_size d).
     - split; [apply flush_inv; auto|]. split; [exact Hh1|]. split; [exact Hm1|]. cbn. lia.
     - split; [auto|]. split; [exact Hh1|]. split; [exact Hm1|]. cbn. lia.
   Qed.
@@ -192,7 +192,7 @@ Section Rewrite.
     /\ w_idx w' <= w_idx w + N.of_nat (length ids).
   Proof.
     induction ids as [|id r IH]; intros prev w w' Hinv Hprev Hb Hl.
-    - inversion Hl; subst. repeat split; auto; try (intros x []); lia.
+    - inversion Hl; subst. split; [exact Hinv|]. split; [auto|]. split; [intros x []|]. cbn. lia.
     - cbn [w_loop] in Hl. cbn [length] in Hb. destruct (sid_eq id prev) eqn:E.
       + apply sid_eq_true in E. subst prev.
         destruct (IH id w w' Hinv Hprev ltac:(lia) Hl) as (H1 & H2 & H3 & H4).
@@ -249,7 +249,7 @@ Section Rewrite.
     intros Hinv Hl Hb. unfold w_write, pack_pos.
     destruct (N.ltb_spec max_doc_offset (w_len w)); [lia|].
     eexists. split; [reflexivity|]. cbn [w_len].
-    destruct (N.ltb_spec bsz (w_len w + doc_size d)); cbn; lia.
+    destruct (N.ltb_spec bsz (w_len w + doc_size d)); unfold w_flush; cbn [w_len]; lia.
   Qed.
 
   Theorem docs_sorted_total : forall ids,
